@@ -1,6 +1,6 @@
 """C14 — prune_tree and get_subtree return exactly the specified part of the tree."""
 from __future__ import annotations
-import itertools, random
+import itertools, random, zlib
 import core
 from core import hx
 from runner import Case
@@ -357,7 +357,39 @@ def build(d):
                 go(k, n)
         return n
     root = go(d["spec"], None)
+    if not d["binary"] and zlib.crc32(repr(d["spec"]).encode()) % 2 == 0:
+        _lived_in(root, nodes)
     return root, nodes
+
+
+def _lived_in(root, nodes):
+    """the tree has a past: an inner node X (with its subtree) hung somewhere else for a while, every node was looked up
+    by path and read while it did, then X went back to where the spec has it (same parent, same position).  Whatever a
+    lookup remembers about the nodes below X (paths, depths) is from the other place."""
+    import bigtree
+    for x in nodes[1:]:
+        if not x.children:
+            continue
+        par = x.parent
+        order = list(par.children)
+        below = {id(n) for n in bigtree.preorder_iter(x)}
+        hosts = [y for y in nodes if id(y) not in below and y is not par
+                 and all(c.node_name != x.node_name for c in y.children)]
+        if not hosts:
+            continue
+        y = hosts[-1]
+        x.parent = y
+        try:
+            for n in nodes:
+                for f in (lambda: bigtree.find_path(root, n.node_name), lambda: list(bigtree.find_paths(root, n.node_name)),
+                          lambda: bigtree.find_full_path(root, n.path_name), lambda: (n.depth, n.path_name, root.max_depth)):
+                    try:
+                        f()
+                    except Exception:  # noqa: BLE001 - ambiguous names etc.: only the reads matter
+                        pass
+        finally:
+            par.children = order
+        return
 
 
 def call(d, nodes):
